@@ -1218,7 +1218,7 @@ func TestC16(t *testing.T) {
 			checkScopes(n, bi, fail)
 			// the validator's own Qi path (a block placed by a miner does not pass the pool): no UTXO for a Quai-ledger payee
 			if heads++; !reorg && heads%3 == 0 {
-				directQiVerdicts(n, heads+int(bi.Number), fail, "output-to-in-zone-quai-address", "honest-spend")
+				directQiVerdicts(n, heads+int(bi.Number), fail, "output-to-in-zone-quai-address", "honest-spend", "fork-sides")
 			}
 		}}
 	})
